@@ -6,25 +6,36 @@ CONFIG = {
             "slices with bool/float components; set from str/bytes/range/tuple values; all pairs of 45 small sequences for + += and the six comparisons; "
             "repetition by {0,1,2,3,-1,-2^63,bool,None,float,+-2^64} and by counts whose product with the length wraps int64; range() near the int64 limits; "
             "plus VERIF_SEED-derived cases on sequences of length 0..12 with bounds anywhere (also next to +-2^63). "
+            "SHORT HISTORIES (hist cases, slice-header model): a = a literal or tuple(x)/list(x)/bytes(x) collected with append (spare capacity) of length 0,1,3,5 "
+            "(thorough 0..5,7) for tuple, list, bytes, str; b derived from a by every form: alias, ~12+2n step-1 slices (sub-slices that keep the parent's spare capacity), "
+            "extended slices, a+c, c+a, a*n, n*a, tuple(a), list(a), bytes(a); then 0, 1 or 2 growing operations applied to the OBJECT b "
+            "(immutables: += literal that fits / does not fit the spare capacity, += a, += b, *= n; lists: +=, append, extend, slice assignment from literal/tuple/bytes/a/b, "
+            "slice deletion, index assignment/deletion); V = a, b and every result rendered AFTER the last operation (Python value semantics: immutables never change, "
+            "list results are new objects, in-place list operations are seen through the same object); R = which observed objects share array cells "
+            "(live cells shared / live cells of one inside the spare capacity of the other), read from the Go slice headers with unsafe; plus seeded random histories. "
             "V = result | every operand afterwards (so operand corruption and result/operand storage sharing - the harness scribbles over list results - are part of V). "
             "non-trivial = the spec raises, or the key is a slice, a negative index, or the operation is anything but len / in-range non-negative indexing; distinct = distinct input lines",
     "trusted_base": [
         "Lean 4.33.0 kernel; axioms allowed: propext, Classical.choice, Quot.sound (audited per theorem on every run)",
         "lean/GPy/C13/Spec.lean: my transcription of Python's sequence model (slice bound adjustment, the progression start+k*step before stop, index normalisation, list assignment/deletion, range as its item list, lexicographic order)",
         "lean/GPy/C13/Model.lean: hand transliteration of py/slice.go, py/internal.go (Index*), py/list.go, py/tuple.go, py/range.go, py/string.go (code-point granularity), py/bytes.go, py/sequence.go and the dispatch in py/arithmetic.go; tied to /repo by the correspondence run only",
-        "Go semantics assumed: int64 arithmetic wraps, / truncates, slice expressions panic outside 0 <= lo <= hi <= len, append/copy as documented; unicode/utf8 rune decoding and strings.Contains are exact (strings are modelled as code-point lists)",
+        "Go semantics assumed: int64 arithmetic wraps, / truncates, slice expressions panic outside 0 <= lo <= hi <= cap, append writes in place iff len+n <= cap and otherwise allocates (capacity chosen by the runtime: a parameter `grow` the theorems quantify over), copy/append behave as memmove; unicode/utf8 rune decoding and strings.Contains are exact (strings are modelled as code-point lists)",
+        "lean/GPy/C13/Heap.lean: hand transliteration of the slice-level behaviour (make / sub-slice / append / element store) of py/tuple.go, py/bytes.go, py/list.go, py/sequence.go over headers (array, offset, len, cap); tied to /repo by the hist cases (V and the sharing column R)",
         "harness/c13.go and checks/common.py (case transport, canonical rendering of results and operands)",
     ],
     "assumptions": [
         "memory exhaustion is not modelled: repetition counts and range lengths that would allocate more than a few dozen items are not generated (overflowing counts are generated only where the wrapped product is tiny)",
-        "list aliasing through Go slice capacity is observed by the harness (scribble test) but not modelled as a heap; mutation during iteration belongs to C17",
+        "Go slice aliasing is modelled (Heap.lean) for tuple, list and bytes; histories are short (derive, at most two growing operations, observe); long aliased histories, mutation during iteration, "
+        "list += / extend from a non-list and the identity of `l *= n` belong to C17 and are not generated here",
         "str is modelled as a list of code points; the byte-offset arithmetic of String.pos and UTF-8 decoding belong to C14 and are exercised here with 1-4 byte characters",
         "user classes with __index__/__getitem__ are not generated",
         "proved for all inputs: GetIndices vs Python's slice positions (getindices_spec, getindices_bounds, step0_valueerror); list get/set/del for every slice key "
-        "(list_getslice_spec, list_setslice_spec, list_delslice_spec) and every index key inside int64 (list_*item_spec_partial); tuple and str slicing and indexing; "
-        "range length, item and iteration for int64 arguments whose span fits a word; concat_spec, eq_spec. "
-        "Tied by the correspondence run only (no theorem yet): range slicing (range_slice_spec), repetition (repeat_spec), membership, str/bytes ordering, "
-        "+= , freshness of results (result_fresh / operand_unchanged are observed by the harness's scribble test, not modelled as a heap)",
+        "(list_getslice_spec, list_setslice_spec, list_delslice_spec) and every index key inside int64 (list_*item_spec_partial); tuple, str and bytes slicing and indexing; "
+        "range length, item, iteration, slicing and membership for int64 arguments whose span fits a word (range_*_spec_partial); concat_spec, eq_spec, order_spec, strbytes_order_spec, "
+        "contains_spec, seqMul_spec / repeat_spec_partial / repeat_bool_spec. Slice-header model: operand_unchanged_immutable (no history of tuple/bytes operations on any headers ever writes "
+        "to an existing array), result_fresh (list results live in new arrays), operand_unchanged_inplace (in-place list operations write only to the list's own or to new arrays), "
+        "lists_own_their_arrays (separation invariant over every history from the empty heap), other_values_unchanged_partial. "
+        "Tied by the correspondence run only: the value computed by each heap-level operation equals the List-level model's (every hist case compares impl, heap model and the value-semantics spec); += on the List-level model",
     ],
     "exhaustive": True,
     "dist_tokens": 1,
